@@ -2,7 +2,7 @@
 from .prog import (AnalysisBroken, key, strip, walk, const_value, edpe_blocks, block_nodes)
 
 
-def escaper_table(f, dkey=None):
+def escaper_table(f, dkey=None, signed=True):
     """byte -> emitted literal (str) or None for pass-through, by EDPE over the dispatched character."""
     if dkey is None:
         for n in f.walk():
@@ -21,7 +21,7 @@ def escaper_table(f, dkey=None):
                 break
     table = {}
     for v in range(256):
-        sv = v if v < 128 else v - 256      # plain char is signed on this target; case labels are < 128 anyway
+        sv = v if (v < 128 or not signed) else v - 256      # plain char is signed on this target; `signed=False` models the other ABI
         blocks = edpe_blocks(f, dkey, sv, start=start, blocked=())
         # only the blocks between the switch and the loop back edge: stop at the first block that leaves the switch
         lits, passthru, other = [], False, []
@@ -170,6 +170,20 @@ def r_escaper_complete(P, chk, formats=("html", "odf")):
             if not ok:
                 chk.violation(rid, "escaper:%s:%s" % (fn, ch), f.where(), "%s does not escape %r (emits %r%s)" % (
                     fn, ch, lit, " followed by the raw character" if passthru else ""))
+    # bytes >= 0x80 (UTF-8 lead / continuation bytes) pass through untouched whatever the signedness of plain char:
+    # no replacement text and no numeric character reference built from the (possibly negative) byte value
+    for fmt in formats:
+        fn, unit, need = specs[fmt]
+        f = P.func(fn, unit)
+        for signed in (True, False):
+            E, dk = escaper_table(f, signed=signed)
+            bad = [v for v in range(128, 256) if E[v][0] is not None or [o for o in E[v][2] if o != "ran_num_next"] or not E[v][1]]
+            chk.obligation(rid, "%s: bytes 0x80..0xFF pass through unchanged (plain char %s)" % (fn, "signed" if signed else "unsigned"), not bad)
+            if bad:
+                lit, passthru, other = E[bad[0]]
+                chk.violation(rid, "escaper:%s:highbyte" % fn, f.where(), "%s does not pass byte 0x%02x through unchanged when plain char is %s "
+                              "(emits %r, calls %s): multi-byte UTF-8 text is rewritten byte-wise, e.g. into a numeric character "
+                              "reference of a negative value" % (fn, bad[0], "signed" if signed else "unsigned", lit, other))
     for fn, unit in (("mmd_print_string_html", "html.c"), ("mmd_print_string_opendocument", "opendocument-content.c")):
         if fn.split("_")[-1] not in ("html", "opendocument"):
             continue
